@@ -20,6 +20,7 @@ import (
 	"bytes"
 	"fmt"
 	"sort"
+	gosync "sync"
 	"testing"
 	"time"
 
@@ -282,6 +283,10 @@ func (w *c31World) checkResponse(st c31Start, dir messages.SyncDirection, mx *ui
 		if limit == 0 {
 			return "", "", "empty:max0"
 		}
+		if !st.byHash && dir == messages.Descending && st.num > w.maxNum {
+			// the requested block does not exist; the statement does not say what to serve
+			return "", "", "empty:desc-start-above-best"
+		}
 		if !st.byHash && st.num == 0 {
 			return pre + "0:empty-response", "request by number 0 answered with an empty response and no error", ""
 		}
@@ -473,8 +478,11 @@ func TestVerif_C31_serve(t *testing.T) {
 		"per scenario every start (by number 0,1,2,3,126..131,best-129..best+2,L/2,L,F,F+1,2^32-1; by hash genesis/main/fork/unknown) x direction {asc,desc,2} x "+
 		"Max {nil,0,1,2,3,127,128,129,2^32-1} x mask {0..31,32,33,255} through CreateBlockResponse; non-trivial = a non-empty response; "+
 		"oracle = generated tree (start, links, length, fields)", len(scs))
-	verifmc.ParallelFor(r, len(scs), func(i int) {
-		sc := scs[i]
+	const shards = 8
+	var aggMu gosync.Mutex
+	agg := map[string]int64{}
+	verifmc.ParallelFor(r, len(scs)*shards, func(item int) {
+		sc, shard := scs[item/shards], item%shards
 		w, err := c31Build(sc)
 		if err != nil {
 			// building the scenario uses only valid operations of the real BlockState
@@ -482,9 +490,27 @@ func TestVerif_C31_serve(t *testing.T) {
 			return
 		}
 		defer w.close()
-		r.Add("scenarios", 1)
+		// counters are kept locally and flushed once per work item (the report is mutex-protected)
+		cnt := map[string]int64{}
+		outc := map[string]int64{}
+		defer func() {
+			for k, v := range cnt {
+				r.Add(k, v)
+			}
+			aggMu.Lock()
+			for k, v := range outc {
+				agg[k] += v
+			}
+			aggMu.Unlock()
+		}()
+		if shard == 0 {
+			cnt["scenarios"]++
+		}
 		starts := w.starts()
-		for _, st := range starts {
+		for si, st := range starts {
+			if si%shards != shard {
+				continue
+			}
 			for _, dir := range dirs {
 				for mi, mx := range c31Maxes {
 					svc := NewSyncService(WithBlockState(w.bs))
@@ -502,50 +528,52 @@ func TestVerif_C31_serve(t *testing.T) {
 							mxCopy = &v
 						}
 						req := &messages.BlockRequestMessage{RequestedData: mask, StartingBlock: from, Direction: dir, Max: mxCopy}
-						replay := map[string]any{"scenario": sc.String(), "start": st.name, "direction": int(dir), "max": mx.name, "mask": mask}
+						replay := func() map[string]any {
+							return map[string]any{"scenario": sc.String(), "start": st.name, "direction": int(dir), "max": mx.name, "mask": mask}
+						}
 						var resp *messages.BlockResponseMessage
 						var rerr error
 						panicked, msg := verifmc.Guard(func() { resp, rerr = svc.CreateBlockResponse(who, req) })
-						r.Add("evaluations", 1)
+						cnt["evaluations"]++
 						if panicked {
-							r.Violate("serve:panic:"+verifmc.PanicSite(msg), msg, replay)
-							r.Outcome("violation:panic")
+							r.Violate("serve:panic:"+verifmc.PanicSite(msg), msg, replay())
+							outc["violation:panic"]++
 							continue
 						}
 						if rerr != nil {
-							r.Outcome(c31ErrClass(rerr))
+							outc[c31ErrClass(rerr)]++
 							if resp != nil {
-								r.Violate("serve:error-with-response", rerr.Error(), replay)
+								r.Violate("serve:error-with-response", rerr.Error(), replay())
 							}
 							continue
 						}
 						if resp == nil {
-							r.Violate("serve:nil-response-without-error", "nil response, nil error", replay)
+							r.Violate("serve:nil-response-without-error", "nil response, nil error", replay())
 							continue
 						}
 						if dir > messages.Descending {
-							r.Violate("serve:invalid-direction-served", fmt.Sprintf("direction %d answered with %d blocks", dir, len(resp.BlockData)), replay)
+							r.Violate("serve:invalid-direction-served", fmt.Sprintf("direction %d answered with %d blocks", dir, len(resp.BlockData)), replay())
 							continue
 						}
 						if mask == 0 {
-							r.Violate("serve:empty-mask-served", fmt.Sprintf("mask 0 answered with %d blocks", len(resp.BlockData)), replay)
+							r.Violate("serve:empty-mask-served", fmt.Sprintf("mask 0 answered with %d blocks", len(resp.BlockData)), replay())
 							continue
 						}
 						sig, desc, class := w.checkResponse(st, dir, mx.v, mask, resp.BlockData)
 						if sig != "" {
-							r.Violate(sig, sc.String()+" start="+st.name+" dir="+c31DirName(dir)+" max="+mx.name+fmt.Sprintf(" mask=%d: ", mask)+desc, replay)
-							r.Outcome("violation:" + sig)
+							r.Violate(sig, sc.String()+" start="+st.name+" dir="+c31DirName(dir)+" max="+mx.name+fmt.Sprintf(" mask=%d: ", mask)+desc, replay())
+							outc["violation:"+sig]++
 							continue
 						}
-						r.Outcome(class)
+						outc[class]++
 						if len(resp.BlockData) > 0 {
-							r.Add("nonempty_responses", 1)
-							r.Add("blocks_checked", int64(len(resp.BlockData)))
+							cnt["nonempty_responses"]++
+							cnt["blocks_checked"] += int64(len(resp.BlockData))
 							if mask == 1 {
 								r.Distinct(fmt.Sprintf("%s|%s|%d|%s", sc.String(), st.name, dir, mx.name))
 							}
 							if len(resp.BlockData) == 128 && mask == 19 && dir == messages.Descending {
-								r.Sample(replay)
+								r.Sample(replay())
 							}
 						}
 					}
@@ -553,8 +581,13 @@ func TestVerif_C31_serve(t *testing.T) {
 			}
 		}
 	}, func(i int, msg string) {
-		r.Violate("serve:harness-panic", msg, scs[i].String())
+		r.Violate("serve:harness-panic", msg, scs[i/shards].String())
 	})
+	for k, v := range agg { // the engine has no bulk Outcome; uncontended calls are cheap
+		for j := int64(0); j < v; j++ {
+			r.Outcome(k)
+		}
+	}
 	var names []string
 	for _, s := range scs[:min(len(scs), 5)] {
 		names = append(names, s.String())
